@@ -137,7 +137,9 @@ func genUnion(r *kit.Rand) []string {
 		for k := 0; k < ln; k++ {
 			t += int64(kit.Pick(r, []int{0, 0, 1, 1, 2, 5}))
 			kind := "pt"
-			if r.Chance(1, 8) {
+			if r.Chance(1, 20) {
+				kind = "del"
+			} else if r.Chance(1, 8) {
 				kind = "bar"
 			} else if r.Chance(1, 8) {
 				kind = "bat"
@@ -164,6 +166,10 @@ func genUnion(r *kit.Rand) []string {
 		ops = append(ops, fmt.Sprintf("union new n=%d rename=%s", n, rename))
 		for _, a := range merge(r, lens, pats[run]) {
 			it := seqs[a[0]][a[1]]
+			if it.kind == "del" {
+				ops = append(ops, fmt.Sprintf("u del %d %d", a[0], it.id))
+				continue
+			}
 			ops = append(ops, fmt.Sprintf("u %s %d %d %d", it.kind, a[0], it.t, it.id))
 		}
 		ops = append(ops, "u fin")
@@ -174,6 +180,7 @@ func genUnion(r *kit.Rand) []string {
 // ---- join ----
 
 type jItem struct {
+	del    bool
 	bar    bool
 	t      int64
 	tags   string
@@ -229,6 +236,7 @@ func genJoin(r *kit.Rand, size int) []string {
 		lagging = r.Intn(n) // this parent skips most slots (gaps): the others pass it
 	}
 	withBars := r.Chance(1, 4)
+	withDel := r.Chance(1, 8) // DeleteGroup messages: the group's pending sets are dropped (by design); tie only
 	// a shared timeline of slots; every parent takes each (slot, host) 0, 1 or 2 times, so that the same
 	// rounded time occurs in several parents (pairing by occurrence), with gaps and duplicates
 	t := base + int64(r.Intn(4))*unit
@@ -259,7 +267,9 @@ func genJoin(r *kit.Rand, size int) []string {
 						tags = "-"
 					}
 					it := jItem{t: tt, tags: tags}
-					if withBars && r.Chance(1, 5) {
+					if withDel && r.Chance(1, 8) {
+						it.del = true
+					} else if withBars && r.Chance(1, 5) {
 						it.bar = true
 					} else {
 						it.fields = fmt.Sprintf("v=i:%d", id)
@@ -312,7 +322,9 @@ func genJoin(r *kit.Rand, size int) []string {
 		for _, a := range merge(r, lens, pats[run]) {
 			it := seqs[a[0]][a[1]]
 			byName := "0"
-			if it.bar {
+			if it.del {
+				ops = append(ops, fmt.Sprintf("j del %d name=m%d byname=%s dims=%s tags=%s", a[0], a[0], byName, dims, it.tags))
+			} else if it.bar {
 				ops = append(ops, fmt.Sprintf("j bar %d %d name=m%d byname=%s dims=%s tags=%s", a[0], it.t, a[0], byName, dims, it.tags))
 			} else {
 				ops = append(ops, fmt.Sprintf("j pt %d %d name=m%d byname=%s dims=%s tags=%s fields=%s", a[0], it.t, a[0], byName, dims, it.tags, it.fields))
